@@ -592,6 +592,13 @@ def idclone_specs(max_n, *, ids=("id7",), typed=False):
             yield gen.Spec(tuple((p, lab, (the_id if lab == "a" else None), k) for p, lab, _d, k in sp.nodes), typed=sp.typed)
 
 
+def emptylab_specs(max_n, *, ids=("id7", 5), typed=False):
+    """Like idclone_specs, but the nodes carrying the explicit id hold the *empty string* (a falsy data
+    object: a load callback returning it must still be taken at its word)."""
+    for sp in idclone_specs(max_n, ids=ids, typed=typed):
+        yield gen.Spec(tuple((p, ("" if lab == "a" else lab), d, k) for p, lab, d, k in sp.nodes), typed=sp.typed)
+
+
 def typed_of(sp: gen.Spec, kind="k1") -> gen.Spec:
     """The typed variant of an untyped spec (every node gets `kind`)."""
     return gen.Spec(tuple((p, lab, d, kind) for p, lab, d, _k in sp.nodes), typed=True)
@@ -607,12 +614,14 @@ def case_list(tier: str):
     # without a load mapper these all hit the same refusal of Tree.load; the quick tier keeps the small ones
     out += [("str", s) for s in idspecs if tier != "quick" or len(s) <= 3]
     out += [("strcb", s) for s in idspecs]
+    out += [("strcb", s) for s in emptylab_specs(N - 1)]
     out += [("typed", s) for s in gen.typed_specs(N)]
     tid = list(idclone_specs(N - 1, typed=True))
     # typed trees in which a node with an explicit id coexists with equal data under another id
     tid += [typed_of(s) for s in gen.explicit_id_specs(N - 1)] + [typed_of(s) for s in gen.eqpair_specs(N - 1)]
     out += [("typed", s) for s in tid]
     out += [("typedcb", s) for s in tid]
+    out += [("typedcb", s) for s in emptylab_specs(N - 2, typed=True)]
     out += [("rec", s) for s in gen.plain_specs(N - 1)]
     out += [("rec", s) for s in idclone_specs(N - 1)]
     out += [("rectyped", s) for s in gen.typed_specs(N - 1)]
